@@ -38,9 +38,12 @@ out = ["# Seeded property-breaking changes", "",
 for r in rows:
     out.append("| %s | %s | %s | %s | %s | %s |" % r)
 def rnd(sid):
-    return 2 if "-r2-" in sid else (3 if "-r3-" in sid else (4 if "-r4-" in sid else 1))
+    for k in (2, 3, 4, 5):
+        if "-r%d-" % k in sid:
+            return k
+    return 1
 out += [""]
-for k in (1, 2, 3, 4):
+for k in (1, 2, 3, 4, 5):
     rr = [r for r in rows if rnd(r[0]) == k]
     if not rr:
         continue
@@ -48,6 +51,27 @@ for k in (1, 2, 3, 4):
     other = sum(1 for r in rr if r[4].startswith("only"))
     now_own = sum(1 for r in rr if not r[5].endswith("(NOT by own check)") and r[5])
     out.append("Round %d: %d changes; first round: %d reported by the property's own check, %d only by a neighbouring property's check, %d missed; now: %d reported by the property's own check." % (k, len(rr), firsts, other, len(rr) - firsts - other, now_own))
+# round 5 also asked every sub-agent for two behaviour-PRESERVING refactorings: any finding on them is a false alarm
+neu = []
+for f in sorted(glob.glob(os.path.join(V, "seeded", "_neutral", "*", "meta.json"))):
+    m = json.load(open(f))
+    neu.append((os.path.basename(os.path.dirname(f)), m))
+if neu:
+    def cnt(d):
+        return sum(len(v) if isinstance(v, list) else 1 for k, v in (d or {}).items() if k != "error")
+    first_any = sum(1 for _t, m in neu if cnt(m.get("first_run_false_alarms")))
+    now_any = sum(1 for _t, m in neu if cnt(m.get("false_alarms_now")))
+    na_any = sum(1 for _t, m in neu if m.get("rules_not_applied_now"))
+    out += ["", "## Behaviour-preserving refactorings (round 5, `seeded/_neutral/`)", "",
+            "%d refactorings; alarms on the first run (machinery as it was when they were written): %d of them; with the current machinery: %d raise an alarm, %d make at least one shape-bound rule report `not applied` (no alarm, recorded as an assumed obligation)." % (len(neu), first_any, now_any, na_any), "",
+            "| refactoring | confirmed neutral (final tree) | alarms at first run | alarms now | rules not applied now |", "|---|---|---|---|---|"]
+    for t, m in neu:
+        rv = m.get("reconfirmed_on_final_tree") or {}
+        conf = ("outputs identical, suite %s" % rv.get("existing_tests_with_change(passed failed)")) if rv.get("ok") else ("NOT confirmed: %s" % (rv.get("error") or {k: v for k, v in rv.items() if k in ("demo_exit_head", "demo_exit_with_change", "git_apply_check")})) if rv else "first evaluation only"
+        fa = m.get("first_run_false_alarms") or {}
+        nowa = m.get("false_alarms_now") or {}
+        out.append("| %s | %s | %s | %s | %s |" % (t, conf, ", ".join("%s:%d" % (k, len(v) if isinstance(v, list) else 1) for k, v in sorted(fa.items())) or "none",
+                                                ", ".join("%s:%d" % (k, len(v) if isinstance(v, list) else 1) for k, v in sorted(nowa.items())) or "none", len(m.get("rules_not_applied_now") or [])))
 if supers:
     out += ["", "Superseded (behaviour-preserving on the repaired tree, not counted above):", ""]
     for sid, why in supers:
